@@ -5,4 +5,6 @@ INVARIANT GrammarSound
 INVARIANT ParseTotal
 INVARIANT EmptyRejected
 INVARIANT NewlineOnlyMatters
+INVARIANT RangesNest
+INVARIANT SubtextReparses
 CHECK_DEADLOCK FALSE
